@@ -1,7 +1,11 @@
 package main
 
 import (
+	"crypto/sha256"
+	"encoding/hex"
+	"encoding/json"
 	"go/ast"
+	"os"
 	"fmt"
 	"go/types"
 	"path/filepath"
@@ -184,7 +188,7 @@ func discharge(vc *VC, cfg runCfg) []*OblResult {
 			if o.Expect == "not-unsat" {
 				need = 1
 			}
-			sr := solveFile(file, cfg.timeoutS, cfg.seed, need)
+			sr := cachedSolve(cfg, vc.query(o), file, need)
 			r.Result, r.Backend, r.TimeS = sr.Status, sr.Backend, sr.TimeS
 			if o.Expect == "not-unsat" {
 				if sr.Status == "unsat" {
@@ -306,4 +310,30 @@ func sortedFuncInfos(prog *Program) []*FuncInfo {
 	}
 	sort.Slice(out, func(i, j int) bool { return out[i].Key < out[j].Key })
 	return out
+}
+
+// cachedSolve: identical query text (same tier parameters) => identical answer. Results are kept under
+// work/qcache so that obligations shared by several properties are solved once per tree; the cache is
+// keyed by the SHA-256 of the full query, so any change to the code or to a contract misses it.
+func cachedSolve(cfg runCfg, query, file string, need int) SolveResult {
+	sum := sha256.Sum256([]byte(fmt.Sprintf("%d|%d|%d|", cfg.timeoutS, need, cfg.seed) + query))
+	dir := filepath.Join(verifDir, "work", "qcache")
+	path := filepath.Join(dir, hex.EncodeToString(sum[:])+".json")
+	if os.Getenv("KVC_NOCACHE") == "" {
+		if b, err := os.ReadFile(path); err == nil {
+			var sr SolveResult
+			if json.Unmarshal(b, &sr) == nil && (sr.Status == "unsat" || sr.Status == "sat") {
+				sr.Backend += " (cached)"
+				return sr
+			}
+		}
+	}
+	sr := solveFile(file, cfg.timeoutS, cfg.seed, need)
+	if sr.Status == "unsat" || sr.Status == "sat" {
+		_ = os.MkdirAll(dir, 0o755)
+		if b, err := json.Marshal(sr); err == nil {
+			_ = os.WriteFile(path, b, 0o644)
+		}
+	}
+	return sr
 }
